@@ -13,7 +13,7 @@ def main():
     m = json.load(open(os.path.join(V, 'selftest', 'matrix.json')))
     checks = [f'C{i:02d}' for i in range(1, 21)]
     lines = []
-    lines.append('Legend: `R` refuted (witness or definite structural mismatch), `U` undecided = reported as a violation (fail closed), `.` silent, `E` internal error, `?` not run (round-7 rows: only the own check was run). Rows: seeded change (a-d: rounds 1-3, functional slips; e,f: round 4, subtle numeric degradations; g,h: round 5, loop restructurings / assertions that can fire / numerically worse rewrites; i,j: round 6; k: round 7, changes that need something specific to manifest) or reverted fix; `own` = the check of the property the change was written against.')
+    lines.append('Legend: `R` refuted (witness or definite structural mismatch), `U` undecided = reported as a violation (fail closed), `.` silent, `E` internal error, `?` not run (round-7 rows: slow checks were run only where they are the own check). Rows: seeded change (a-d: rounds 1-3, functional slips; e,f: round 4, subtle numeric degradations; g,h: round 5, loop restructurings / assertions that can fire / numerically worse rewrites; i,j: round 6; k: round 7, changes that need something specific to manifest) or reverted fix; `own` = the check of the property the change was written against.')
     lines.append('')
     lines.append('| change | own | ' + ' | '.join(c[1:] for c in checks) + ' | what it is |')
     lines.append('|---|---|' + '|'.join(['---'] * len(checks)) + '|---|')
